@@ -155,6 +155,10 @@ pub struct Session {
     /// run the *alternative build* of the tool (same code, other embedded data) instead of the main one
     #[serde(default, skip_serializing_if = "std::ops::Not::not")]
     pub alt: bool,
+    /// run the *other-version build* of the tool (same data, another version number and another
+    /// tokenizer configuration: what another release leaves behind, for real)
+    #[serde(default, skip_serializing_if = "std::ops::Not::not")]
+    pub ver: bool,
     /// seed of everything this process start draws with getrandom(2) (hash-map seeds of the standard
     /// library, UUIDs); 0 = derived from the history's seed and the step number
     #[serde(default, skip_serializing_if = "is_zero64")]
